@@ -88,17 +88,18 @@ Qed.
 
 Record sig_facts (ann : annotations) : Prop := {
   sf_nodup : NoDup (map fst ann);
-  sf_ann_ok : forall k t, In (k, t) ann -> ann_ok t = true;
-  sf_names : forall n, In n (ann_names ann) -> name_ok n = true }.
+  sf_ann_ok : forall k t, In (k, t) ann -> ann_ok t = true }.
 
 Lemma sig_ok_facts : forall ann, sig_ok ann = true -> sig_facts ann.
 Proof.
-  unfold sig_ok. intros ann H. apply andb_true_iff in H as [H H3]. apply andb_true_iff in H as [H1 H2].
+  unfold sig_ok. intros ann H. apply andb_true_iff in H as [H1 H2].
   constructor.
   - now apply nodupb_NoDup.
   - intros k t Hin. rewrite forallb_forall in H2. apply (H2 (k, t) Hin).
-  - intros n Hn. rewrite forallb_forall in H3. auto.
 Qed.
+
+Lemma no_hiding_facts : forall scope, no_hiding scope = true -> forall n, In n scope -> name_ok n = true.
+Proof. unfold no_hiding. intros scope H n Hn. rewrite forallb_forall in H. auto. Qed.
 
 Lemma param_names_NoDup : forall ann, NoDup (map fst ann) -> NoDup (param_names ann).
 Proof. intros. unfold param_names, params_of. now apply NoDup_map_filter. Qed.
@@ -107,13 +108,12 @@ Lemma ann_names_In : forall ann k t n, In (k, t) ann -> In n (cls_names t) -> In
 Proof. intros. unfold ann_names. apply in_flat_map. exists (k, t). auto. Qed.
 
 Record scope_facts (scope : list string) (ann : annotations) : Prop := {
-  sc_incl : forall n, In n (ann_names ann) -> In n scope;
-  sc_ok : forall n, In n scope -> name_ok n = true }.
+  sc_incl : forall n, In n (ann_names ann) -> In n scope }.
 
 Lemma scope_ok_facts : forall scope ann, scope_ok scope ann = true -> scope_facts scope ann.
 Proof.
-  unfold scope_ok. intros scope ann H. apply andb_true_iff in H as [H1 H2]. rewrite forallb_forall in H1, H2.
-  constructor; [intros n Hn; apply mem_In; exact (H1 n Hn)|intros n Hn; exact (H2 n Hn)].
+  unfold scope_ok. intros scope ann H. rewrite forallb_forall in H.
+  constructor. intros n Hn. apply mem_In. exact (H n Hn).
 Qed.
 
 (* ---- upd collects class names of the annotation ----------------------------------------------------- *)
@@ -285,26 +285,32 @@ Proof.
   - eapply IH; eauto. intros k0 t0 m H0. apply (Hn k0 t0 m). now right.
 Qed.
 
-(* L2: where _update_context has collected the names, the loop accepts what satisfies the demand *)
+(* L2: _update_context has collected the classes of the annotation, so the loop accepts what satisfies the demand;
+   no assumption about the names of the classes in the scope *)
 Lemma items_loop : forall scope doc anns ctx,
-  (forall m, In m scope -> name_ok m = true) ->
+  (forall k t, In (k, t) anns -> ann_ok t = true) ->
   (forall k t m, In (k, t) anns -> In m (cls_names t) -> In m scope) ->
   (forall m, In m ctx -> In m scope) ->
-  ctx_covers ctx anns = true -> doc_no_typing_dot doc = true ->
+  doc_no_typing_dot doc = true ->
   (forall kt, In kt anns -> item_spec scope doc kt) -> loop_spec doc ctx anns.
 Proof.
-  intros scope doc. induction anns as [|[k t] r IH]; intros ctx Hok Hn Hc Hcov Hdot Hit; [exact I|].
-  cbn [loop_spec]. cbn [ctx_covers] in Hcov. apply andb_true_iff in Hcov as [Hcov Hcov'].
+  intros scope doc. induction anns as [|[k t] r IH]; intros ctx Hann Hn Hc Hdot Hit; [exact I|].
+  cbn [loop_spec].
   assert (Hc' : forall m, In m (upd t ++ ctx) -> In m scope).
   { intros m Hm. apply in_app_iff in Hm as [Hm|Hm]; [|auto]. apply (Hn k t m); [now left|now apply upd_names]. }
   assert (Hparse : forall d, In d (doc_types doc) -> denotes scope d t ->
                    exists a, parse_ref (upd t ++ ctx) (Some d) = Ok a /\ ty_eqb a t = true).
   { intros d Hd [v [Hev Heq]]. exists v. split; [|assumption]. apply parse_ref_Ok_intro.
     - unfold doc_no_typing_dot in Hdot. rewrite forallb_forall in Hdot. specialize (Hdot d Hd). now apply negb_true_iff in Hdot.
-    - rewrite <- Hev. apply eval_ext. intros n Hin. apply lookup_same; auto.
-      intros G. assert (Hv : In n (cls_names v)) by (eapply eval_names; eauto).
-      apply (ty_eqb_names n v t Heq) in Hv. rewrite forallb_forall in Hcov. specialize (Hcov n Hv).
-      rewrite G in Hcov. rewrite orb_false_r in Hcov. now apply mem_In. }
+    - rewrite <- Hev. apply eval_ext. intros n Hin. unfold lookup.
+      destruct (mem n (upd t ++ ctx)) eqn:M1.
+      + apply mem_In in M1. apply Hc' in M1. apply mem_In in M1. now rewrite M1.
+      + destruct (mem n scope) eqn:M2; [|reflexivity].
+        destruct (mem n subscriptable_builtins) eqn:S; [now rewrite (subscriptable_globals_cls n S)|].
+        exfalso. assert (Hv : In n (cls_names v)).
+        { eapply (eval_names_gen scope n); eauto. intros w Hw. unfold lookup in Hw. rewrite M2 in Hw. now inversion Hw. }
+        apply (ty_eqb_names n v t Heq) in Hv. apply mem_false_In in M1. apply M1. apply in_app_iff. left.
+        apply upd_complete; [apply (Hann k t); now left|assumption]. }
   split.
   - specialize (Hit (k, t) (or_introl eq_refl)). unfold item_spec in Hit. cbn [fst snd] in Hit.
     destruct (is_return k).
@@ -316,6 +322,7 @@ Proof.
       { apply filter_head_In in H1 as [H1 _]. eapply doc_types_param; eauto. }
       exists p, ps, a. rewrite H2. split; [assumption|]. split; [assumption|now rewrite ty_eqb_sym].
   - apply IH; auto.
+    + intros k0 t0 H0. apply (Hann k0 t0). now right.
     + intros k0 t0 m H0. apply (Hn k0 t0 m). now right.
     + intros kt H0. apply Hit. now right.
 Qed.
@@ -442,13 +449,13 @@ Lemma ann_scope : forall scope ann, scope_facts scope ann ->
 Proof. intros scope ann SC k t m H1 H2. apply SC. eapply ann_names_In; eauto. Qed.
 
 Theorem accepted_consistent : forall scope req parser ann doc,
-  sig_ok ann = true -> scope_ok scope ann = true ->
+  sig_ok ann = true -> scope_ok scope ann = true -> no_hiding scope = true ->
   check_ref (mkfc req parser ann doc) = Ok tt -> consistent scope ann doc.
 Proof.
-  intros scope req parser ann doc Hs Hsc H. apply sig_ok_facts in Hs. apply scope_ok_facts in Hsc.
+  intros scope req parser ann doc Hs Hsc Hh H. apply sig_ok_facts in Hs. apply scope_ok_facts in Hsc.
   apply check_ref_Ok in H as [Hc Hl]. cbn [mkfc f_ann f_doc] in *.
   apply complete_items_consistent; [assumption|assumption|].
-  eapply loop_items; try eassumption; [apply Hsc|eapply ann_scope; eauto|intros m []].
+  eapply loop_items; try eassumption; [now apply no_hiding_facts|eapply ann_scope; eauto|intros m []].
 Qed.
 
 Theorem consistent_accepted : forall scope req parser ann doc,
@@ -456,9 +463,8 @@ Theorem consistent_accepted : forall scope req parser ann doc,
   consistent scope ann doc -> check_ref (mkfc req parser ann doc) = Ok tt.
 Proof.
   intros scope req parser ann doc Hs Hsc Hdot H. apply sig_ok_facts in Hs. apply scope_ok_facts in Hsc.
-  assert (Hcov : ctx_covers [] ann = true) by (apply ann_ok_ctx_covers; apply Hs).
   apply check_ref_Ok. cbn [mkfc f_ann f_doc]. destruct (consistent_complete_items scope ann doc Hs H) as [Hc Hit].
-  split; [assumption|]. eapply items_loop; try eassumption; [apply Hsc|eapply ann_scope; eauto|intros m []].
+  split; [assumption|]. eapply items_loop; try eassumption; [apply Hs|eapply ann_scope; eauto|intros m []].
 Qed.
 
 (* ---- nothing but PedanticDocstringException ----------------------------------------------------------------------------------- *)
@@ -495,10 +501,10 @@ Proof.
 Qed.
 
 Theorem inconsistent_rejected : forall scope req parser ann doc,
-  sig_ok ann = true -> scope_ok scope ann = true ->
+  sig_ok ann = true -> scope_ok scope ann = true -> no_hiding scope = true ->
   ~ consistent scope ann doc -> check_ref (mkfc req parser ann doc) = Raise PDocstringC.
 Proof.
-  intros scope req parser ann doc Hs Hsc Hn.
+  intros scope req parser ann doc Hs Hsc Hh Hn.
   destruct (only_docstring_exception req parser ann doc Hs) as [E|E]; [|assumption].
   exfalso. apply Hn. eapply accepted_consistent; eauto.
 Qed.
@@ -576,11 +582,11 @@ Proof.
 Qed.
 
 Theorem one_edit_rejected : forall scope req parser ann doc doc',
-  sig_ok ann = true -> scope_ok scope ann = true ->
+  sig_ok ann = true -> scope_ok scope ann = true -> no_hiding scope = true ->
   consistent scope ann doc -> one_edit scope doc doc' ->
   check_ref (mkfc req parser ann doc') = Raise PDocstringC.
 Proof.
-  intros scope req parser ann doc doc' Hs Hsc Hcons Hedit.
+  intros scope req parser ann doc doc' Hs Hsc Hh Hcons Hedit.
   pose proof (sig_ok_facts _ Hs) as SF.
   destruct (consistent_complete_items scope ann doc SF Hcons) as [Hcomp _].
   apply complete_ref_Ok in Hcomp as [Hraw [Hlen Hret]].
